@@ -125,6 +125,7 @@ pub struct Report {
     pub violations: Vec<Violation>,
     pub expected_classes: Vec<String>,
     pub exhaustive: Vec<String>,
+    pub corr_module: String,
 }
 impl Report {
     pub fn new(prop: &str) -> Self {
@@ -201,7 +202,8 @@ pub fn write_out(rep: &Report, out_dir: &str, tag: &str, shard_size: usize) -> s
         let lo = k * shard_size;
         let hi = usize::min(lo + shard_size, rep.cases.len());
         let mut s = String::new();
-        let _ = writeln!(s, "From SplVerif Require Import Lib.Base Corr.Common Corr.{}.", rep.prop);
+        let module = if rep.corr_module.is_empty() { rep.prop.clone() } else { rep.corr_module.clone() };
+        let _ = writeln!(s, "From SplVerif Require Import Lib.Base Corr.Common Corr.{}.", module);
         let _ = writeln!(s, "Local Open Scope N_scope.");
         let _ = writeln!(s, "Definition cases : list case := [");
         for (i, c) in rep.cases[lo..hi].iter().enumerate() {
